@@ -60,26 +60,36 @@ class UnicodeForPython3(str):
 
     def __repr__(self) -> str:
         r"""
-        Replacement repr() for Python3.
-        This ensures we get the "u" suffix on unicode types,
-        and also \u when the string is not ASCII representable
+        Replacement repr() for Python3: what Python 2 prints for a unicode
+        object - a "u" prefix, and \xNN, \uNNNN or \UNNNNNNNN for everything
+        that is not printable ASCII.
         """
         try:
-            utf8_value = self.value.decode("utf-8")
-            # Do we need to handle utf-16 and utf-32?
+            utf8_value = self.value.decode("utf-8", "surrogatepass")
         except UnicodeDecodeError:
             return f"""u'{str(self.value)[1:]}'"""
 
-        if is_ascii(utf8_value):
-            return f"""u'{utf8_value}'"""
-
-        # Turn the unicode character into its Unicode code point,
-        # but strip of the leading "0x".
-        stripped_utf8 = utf8_value[len("0x") :]
-        unicode_codepoint = "".join(
-            (c if is_ascii(c) else hex(ord(c)) for c in stripped_utf8)
-        )
-        return rf"""u'\u{unicode_codepoint}'"""
+        quote = '"' if "'" in utf8_value and '"' not in utf8_value else "'"
+        out = []
+        for c in utf8_value:
+            n = ord(c)
+            if c == quote or c == "\\":
+                out.append("\\" + c)
+            elif c == "\n":
+                out.append("\\n")
+            elif c == "\r":
+                out.append("\\r")
+            elif c == "\t":
+                out.append("\\t")
+            elif 0x20 <= n < 0x7F:
+                out.append(c)
+            elif n < 0x100:
+                out.append("\\x%02x" % n)
+            elif n < 0x10000:
+                out.append("\\u%04x" % n)
+            else:
+                out.append("\\U%08x" % n)
+        return "u" + quote + "".join(out) + quote
 
     def __str__(self) -> str:
         try:
